@@ -181,9 +181,10 @@ class ValidationContext:
         for attr in iter_class_slots(self):
             setattr(context, attr, getattr(self, attr))
 
-        context.errors = self.errors  # shared collector: errors found with the copy are kept
-        context.id_map = self.id_map.copy()
-        context.identities = self.identities.copy()
+        # The collector and the document-wide tables are shared with the copy
+        context.errors = self.errors
+        context.id_map = self.id_map
+        context.identities = self.identities
         context.inherited = self.inherited.copy()
         context.id_list = self.id_list if self.id_list is None else self.id_list.copy()
 
